@@ -342,7 +342,9 @@ fn judge_expression(rec: &mut Rec, expr: &str, rng: &mut Rng, origin: &'static s
     }
 }
 
-const EDIT_ALPHABET: &str = "0123456789*,-/+ abcdefghijklmnopqrstuvwxyzé7";
+// (the last four: characters whose Unicode upper/lower-casing lands on an ASCII letter — long s, dotless i, Kelvin
+// sign, dotted capital I — which a name matcher built on to_uppercase()/to_lowercase() takes for s, i, k)
+const EDIT_ALPHABET: &str = "0123456789*,-/+ abcdefghijklmnopqrstuvwxyzé7\u{17f}\u{131}\u{212a}\u{130}";
 
 pub const BASE: [&str; 16] = [
     "* * * * *",
@@ -496,6 +498,46 @@ pub fn run(ctx: &Ctx) -> PropResult {
         rec.bin("invalid-item/in-list");
         judge_expression(rec, &expr, rng, "invalid-item-in-valid-expression", false, 6);
     }));
+    // call sequences: an accepted expression, then — as the very next parse on this thread — the expression with one
+    // field boundary moved by a character (same characters, split differently) or with two fields swapped, then the
+    // first again; each judged on its own (accept/reject and, when accepted, the denoted sets)
+    wls.push(Workload::cases("boundary_shift_sequences", ctx.count(20_000, 600_000), |rec, _, rng| {
+        let x = if rng.chance(1, 2) {
+            // numeric fields of two digits make shifted boundaries meaningful
+            let f = |rng: &mut Rng, lo: u32, hi: u32| rng.range_i64(lo as i64, hi as i64).to_string();
+            format!("{} {} {} {} {}", f(rng, 0, 59), f(rng, 0, 23), f(rng, 1, 31), f(rng, 1, 12), if rng.chance(1, 2) { "*".to_string() } else { f(rng, 0, 7) })
+        } else {
+            gen_expression(rng)
+        };
+        rec.bin("sequence/boundary-shift");
+        judge_expression(rec, &x, rng, "boundary-shift-sequence(first)", false, 6);
+        let fields: Vec<&str> = x.split(' ').collect();
+        if fields.len() == 5 {
+            for _ in 0..2 {
+                let k = rng.below(4) as usize;
+                let (a, b) = (fields[k], fields[k + 1]);
+                let mut v: Vec<String> = fields.iter().map(|s| s.to_string()).collect();
+                match rng.below(3) {
+                    0 if a.chars().count() > 1 => {
+                        let mut ac: Vec<char> = a.chars().collect();
+                        let c = ac.pop().unwrap();
+                        v[k] = ac.into_iter().collect();
+                        v[k + 1] = format!("{}{}", c, b);
+                    }
+                    1 if b.chars().count() > 1 => {
+                        let mut bc: Vec<char> = b.chars().collect();
+                        let c = bc.remove(0);
+                        v[k] = format!("{}{}", a, c);
+                        v[k + 1] = bc.into_iter().collect();
+                    }
+                    _ => v.swap(k, k + 1),
+                }
+                let y = v.join(" ");
+                judge_expression(rec, &y, rng, "boundary-shift-sequence(next-parse)", true, 6);
+                judge_expression(rec, &x, rng, "boundary-shift-sequence(first-again)", true, 12);
+            }
+        }
+    }));
     wls.push(Workload::cases("window_iteration_day_lists", ctx.count(2_000, 100_000), |rec, idx, rng| {
         // day-of-month lists / steps / ranges with an unrestricted weekday: the shapes whose denoted set is
         // only visible when the iterator walks across short months
@@ -515,7 +557,8 @@ pub fn run(ctx: &Ctx) -> PropResult {
         "accept side: expressions generated from the documented grammar (per field a list of 1–4 items from *, */n with n up to the field size, a, a-b; month/weekday names in random case; 7 and ranges ending in 7 in the weekday field; extra/odd whitespace) and, per field, every value, every range start/end, every step and every name; reject side: ALL single-character edits (delete / replace / insert over {{0-9 * , - / + space a-z é}}) of {} base expressions. Verdicts: Ok ⇔ the reference grammar accepts, Err(InvalidFormat) otherwise, never a panic; shapes the documentation does not settle (leading zeros, a-b/n, steps above the field size, ? L W #) are skipped. For accepted expressions the denoted sets are read back behaviourally — clock pinned at t−1 min, fresh clone, next()==t ⇔ t is a member — with one query per value of each field (other fields held at members; day queries on days where the other day field cannot satisfy the OR) plus random minutes; and by window iteration — 24 successive results of one clone under a fixed clock compared with the model's enumeration (also on day-of-month lists/steps/ranges across short months). A further workload plants one invalid item (out-of-range value, zero step, reversed range, empty, junk, signed, trailing range part) inside an otherwise valid list, also directly after a `*`; thorough adds all double edits of four short bases. Every case non-trivial; distinct by hash of the expression.",
         bases.len()
     );
-    meta.required_bins = vec!["parse/accept-accept", "parse/reject-reject", "parse/unspecified-shape-skipped", "sets/queried", "sets/window-iterated", "invalid-item/in-list", "member/expected-yes", "member/expected-no"];
+    meta.required_bins = vec![
+        "sequence/boundary-shift","parse/accept-accept", "parse/reject-reject", "parse/unspecified-shape-skipped", "sets/queried", "sets/window-iterated", "invalid-item/in-list", "member/expected-yes", "member/expected-no"];
     meta.assumptions = vec!["the clock seen by CronSchedule::next is pinned through the cfg(astrolabe_verif) hook (thread-local)".into()];
     Ok((meta, out))
 }
